@@ -1,5 +1,6 @@
 import BrushVerif.Proofs.Fd
 import BrushVerif.Proofs.HereDoc
+import BrushVerif.Gen.RedirTables
 /-!
 # C10 — redirections give each command bash's descriptors and are undone afterwards
 
@@ -422,5 +423,61 @@ theorem heredoc_quoted_delimiter_is_literal (tagWord xval body : Str) (c : Char)
     rw [List.any_eq_true]
     exact ⟨c, hc, by rcases hq with rfl | rfl | rfl <;> simp [isQuoting]⟩
   simp [content, requiresExpansion, this]
+
+/-! ## The tables of `setup_redirect`, regenerated from the source on every run
+
+`Gen/RedirTables.lean` is written by `tools/c10gen.py` from `brush-core/src/interp.rs` each time the
+check runs.  The three theorems below identify the hand-written tables that every refinement theorem
+above is stated over (`Fd.defaultFd`, `Fd.flagsFor`, `Fd.outErrFlags`) with the regenerated ones, for
+every kind, both noclobber settings and both "an existing regular file is there" answers; the fourth
+restates the refinement theorem directly over the regenerated tables. -/
+
+/-- the descriptor a redirection applies to when none is written is the source's table -/
+theorem default_fd_table_is_the_sources (k : Kind) :
+    defaultFd k = BrushVerif.Gen.genDefaultFd (BrushVerif.Gen.RKind.ofKind k) := by
+  cases k <;> rfl
+
+/-- the `OpenOptions` of a file redirection are the source's `match kind` arms -/
+theorem open_flags_table_is_the_sources (nc existsReg : Bool) (k : Kind) :
+    flagsFor nc existsReg k = BrushVerif.Gen.genFlagsFor nc existsReg (BrushVerif.Gen.RKind.ofKind k) := by
+  cases k <;> cases nc <;> cases existsReg <;> rfl
+
+/-- the `OpenOptions` of `&>word` / `&>>word` are those of `setup_redirect_output_and_error_to` -/
+theorem out_err_flags_are_the_sources (nc existsReg append : Bool) :
+    outErrFlags nc existsReg append = BrushVerif.Gen.genOutErrFlags nc existsReg append := by
+  cases nc <;> cases existsReg <;> cases append <;> rfl
+
+/-- what the regenerated tables say about the forms the property names: `>` truncates unless noclobber
+protects an existing regular file (then the open is exclusive and fails), `>|` always truncates, `>>`
+appends and never truncates, `<` neither creates nor writes, `<>` creates without truncating -/
+theorem regenerated_tables_meet_posix (nc existsReg : Bool) :
+    (BrushVerif.Gen.genFlagsFor nc existsReg .clobber).trunc = true ∧
+    (BrushVerif.Gen.genFlagsFor nc existsReg .append).trunc = false ∧
+    (BrushVerif.Gen.genFlagsFor nc existsReg .append).app = true ∧
+    (BrushVerif.Gen.genFlagsFor nc existsReg .read).creat = false ∧
+    (BrushVerif.Gen.genFlagsFor nc existsReg .read).wr = false ∧
+    (BrushVerif.Gen.genFlagsFor nc existsReg .readWrite).trunc = false ∧
+    (BrushVerif.Gen.genFlagsFor nc existsReg .readWrite).creat = true ∧
+    ((BrushVerif.Gen.genFlagsFor nc existsReg .write).trunc = !nc) ∧
+    ((BrushVerif.Gen.genFlagsFor nc existsReg .write).excl = (nc && existsReg)) ∧
+    ((BrushVerif.Gen.genOutErrFlags nc existsReg false).excl = (nc && existsReg)) ∧
+    (BrushVerif.Gen.genOutErrFlags nc existsReg true).trunc = false := by
+  cases nc <;> cases existsReg <;> decide
+
+/-- the refinement theorem, read over the regenerated tables: a file redirection opens the path with
+the flags the source's table gives and installs the handle at the descriptor the source's table gives -/
+theorem file_redirect_uses_regenerated_tables (nc : Bool) (P O : Table) (s : Sys) (n : Option Fd) (k : Kind) (p : Path) :
+    applyRedirect nc P O s (.file n k p) =
+      (sysOpen s p (BrushVerif.Gen.genFlagsFor nc (isReg s p) (BrushVerif.Gen.RKind.ofKind k))).map fun (id, s') =>
+        (setT O (n.getD (BrushVerif.Gen.genDefaultFd (BrushVerif.Gen.RKind.ofKind k))) (.open (.file id)), s') := by
+  simp only [applyRedirect, open_flags_table_is_the_sources, default_fd_table_is_the_sources]
+
+/-- the tables are not degenerate: noclobber turns `>` on an existing regular file into an exclusive,
+non-truncating open, and `>>` differs from `>` -/
+example : (BrushVerif.Gen.genFlagsFor true true .write).excl = true ∧
+    (BrushVerif.Gen.genFlagsFor true true .write).trunc = false ∧
+    (BrushVerif.Gen.genFlagsFor false true .write).trunc = true ∧
+    BrushVerif.Gen.genFlagsFor false false .append ≠ BrushVerif.Gen.genFlagsFor false false .write := by decide
+
 
 end BrushVerif.C10
